@@ -10,7 +10,10 @@ R (totality): TLC enumerates every token string up to length 4 (quick) / 5 (thor
    action of spec/GrammarTrace.tla accepts.
 R (meaning): TLC generates abstract queries (depth <= 3) and prints each in three ways; the harness
    parses the texts in default-OR and conjunction mode and searches a corpus the specification
-   defines; TLC recomputes the match sets.  Marker x operator interaction: every chain of 2..3
+   defines; TLC recomputes the match sets.  Field groups `f:( ... )` carry every decoration on their
+   members (markers, boosts ^2 ^2.5 ^0.5, parentheses, nested boosts, chains, phrases with slop, inner
+   groups): the group's field must reach every word below it - also judged through a QueryParser
+   WITHOUT default field (a fully scoped query means the same, any other is refused).  Marker x operator interaction: every chain of 2..3
    operands joined by AND / OR / juxtaposition with each operand bare or marked + / - / NOT
    (624 shapes, exhaustive), and random such chains inside the generated queries.
 Recorded findings are reproduced by small dedicated runs."""
@@ -187,9 +190,9 @@ def meaning(ctx, n):
     ok, bad = el.judge(ctx, MODULE, CFG, per_event_runs(ev), "meaning", key=meaning_key, nontrivial=meaning_nontrivial, timeout=900)
     c = cases[min(3, len(cases) - 1)]
     ctx.sample({"kind": "abstract query generated by TLC and the texts it was printed as", "q": c["q"], "texts": ["".join(map(chr, t)) for t in c["texts"]]})
-    ctx.cov["meaning"] = {"abstract_queries": len(cases), "texts_parsed": sum(len(c["texts"]) for c in cases), "modes": 2, "accepted": ok, "rejected": bad,
+    ctx.cov["meaning"] = {"abstract_queries": len(cases), "texts_parsed": sum(len(c["texts"]) for c in cases), "modes": 3, "accepted": ok, "rejected": bad,
                           "corpus_docs": len(corpus["docs"])}
-    log(f"[R] meaning: {len(cases)} abstract queries x 3 texts x 2 modes x (strict, lenient): {ok} accepted, {bad} rejected")
+    log(f"[R] meaning: {len(cases)} abstract queries x 3 texts x 3 parsers (default OR, conjunction, no default field) x (strict, lenient): {ok} accepted, {bad} rejected")
     return ev, corpus
 
 
